@@ -172,6 +172,7 @@ def run(ctx):
     parsed_integers_not_unwrapped(ctx, "R16-j")
     token_loops_make_progress(ctx, "R16-k")
     dependency_preconditions(ctx, "R16-l")
+    stdin_never_reaches_file_emitters(ctx, "R16-m")
     import c03
     c03.offset_base_agreement(ctx, "R16-i")
 
@@ -702,3 +703,57 @@ def dependency_preconditions(ctx, rid):
                             "`--config-path a/rustfmt.toml b/main.rs` and a non-empty `ignore` list it does not, and rustfmt panics",
                             [c.loc()])
     r.floor(rid, n, 1, "calls of matched_path_or_any_parents")
+
+
+def stdin_never_reaches_file_emitters(ctx, rid):
+    """R16-m: text from standard input is never handed to an emitter that needs a real path"""
+    from absint import explore, vkey, variant_name, TooManyPaths
+    p, r = ctx.p, ctx.r
+    r.rule(rid, "rustfmt::format_string (the stdin path): every path that constructs the Session has, before it, set emit_mode "
+                "explicitly — to Diff under --check, else under a decision that restricts --emit to none / stdout / checkstyle / "
+                "json — so that no emit mode inherited from a configuration file or `--config emit_mode=…` survives: "
+                "FilesEmitter and FilesWithBackupEmitter call ensure_real_path, which panics on `<stdin>`")
+    f = p.fns.get("rustfmt::format_string")
+    if f is None:
+        r.undecidable(rid, "rustfmt::format_string not found")
+        return
+
+    def eff(c):
+        return (c.name.endswith("::emit_mode") and "ConfigSetter" in c.name) or c.name.rsplit("::", 1)[-1] == "new" and "Session" in c.name
+    try:
+        paths = explore(f, is_effect=eff, pure=lambda c: c.name.endswith("is_all") or "was_set" in c.name, max_paths=100000, max_visits=1,
+                        program=p, inline="effects")
+    except TooManyPaths as e:
+        r.undecidable(rid, str(e))
+        return
+    r.paths(rid, len(paths))
+    n = 0
+    OKMODES = {"Stdout", "Checkstyle", "Json", "Diff"}
+    for path in paths:
+        effs = [e for e in path.effects if e.kind == "call"]
+        news = [i for i, e in enumerate(effs) if e.name.rsplit("::", 1)[-1] == "new"]
+        if not news:
+            continue
+        n += 1
+        sets = [e for e in effs[:news[0]] if e.name.endswith("::emit_mode")]
+        ok = bool(sets)
+        why = "no explicit emit_mode before Session::new"
+        if ok:
+            val = vkey(sets[-1].args[-1])
+            if val in OKMODES:
+                pass
+            else:
+                # a value taken from --emit: the path must have restricted it
+                modes = [variant_name(v) for k, v in path.decisions if k.endswith("emit_mode as Some.0)")]
+                none = any(k.endswith("arg2.emit_mode)") and variant_name(v) == "None" for k, v in path.decisions)
+                ok = none or (bool(modes) and all(m in OKMODES for m in modes if isinstance(m, str)) and not any(isinstance(m, tuple) for m in modes))
+                why = "emit_mode set to %s under decisions %s" % (short(val)[:40], modes)
+        key = "format_string: Session built %s" % ("after an explicit stdin-capable emit_mode" if ok else "with an inherited emit mode")
+        r.instance(rid, key, "ok" if ok else "violation", "%s:%d" % (f.file, f.line))
+        if not ok:
+            r.violation(rid, "format_string: the stdin path can keep a configured emit mode",
+                        "%s (decisions %s): with `emit_mode = files` in rustfmt.toml (or --config emit_mode=files) the session gets "
+                        "the FilesEmitter, whose ensure_real_path panics on `<stdin>` — exit 101"
+                        % (why, [(k[-30:], variant_name(v)) for k, v in path.decisions if "emit_mode" in k or "check" in k][:4]),
+                        ["%s:%d" % (f.file, f.line)])
+    r.floor(rid, n, 3, "paths of format_string that build the Session")
